@@ -75,8 +75,13 @@ def check(run):
                      for c in ast.walk(node.test))
             conj = isinstance(node.test, ast.BoolOp) and isinstance(node.test.op, ast.And)
             closes = any(isinstance(c, ast.Call) and is_self_call(c, "closeConnection") for st in node.body for c in ast.walk(st))
-            ok = gt and conj and closes
-            what = "" if ok else "idle test is `%s` with body closing=%s; expected `<ix>.tymeout > 0 and <ix>.tymer.expired` guarding closeConnection" % (unparse(node.test), closes)
+            parts = node.test.values if conj else []
+            extra = [unparse(v) for v in parts if not ((isinstance(v, ast.Compare) and ".tymeout" in unparse(v)) or (dotted(v) or "").endswith(".tymer.expired"))]
+            ok = gt and conj and closes and not extra
+            if extra:
+                what_extra = extra
+            what = "" if ok else "idle test is `%s` with body closing=%s; expected exactly `<ix>.tymeout > 0 and <ix>.tymer.expired` guarding closeConnection%s" % (
+                unparse(node.test), closes, (" (extra condition %s keeps an idle connection open)" % extra) if extra else "")
             run.ob("C12.R2", "%s:idle-test-guards-close" % f.fq, ok, run.site(f, node), what)
         if not hits:
             run.ob("C12.R2", "%s:idle-test-guards-close" % f.fq, False, run.site(f), what)
@@ -93,11 +98,22 @@ def check(run):
                         and isinstance(node.targets[0], ast.Name):
                     var = node.targets[0].id
             ok = False
+            why = ""
             for node in walk_local(f.node):
                 if isinstance(node, ast.Call) and is_self_call(node, "refresh") and var and tcp._guarded_by_truth(node, var):
-                    ok = True
+                    # every guard between the data test and the refresh may only be `self.refreshable`
+                    gs = []
+                    p = parent(node)
+                    while p is not None and p is not f.node:
+                        if isinstance(p, ast.If) and dotted(p.test) != var:
+                            gs.append(unparse(p.test))
+                        p = parent(p)
+                    if all(g == "self.refreshable" for g in gs):
+                        ok = True
+                    else:
+                        why = " (refresh is additionally guarded by %s: traffic that does not satisfy it does not count as activity)" % [g for g in gs if g != "self.refreshable"]
             run.ob("C12.R3", "%s:%s.%s:refreshes-on-traffic" % (S, cname, meth), ok, run.site(f),
-                   "" if ok else "%s.%s moves data without refreshing the idle tymer: a busy connection is timed out as idle" % (cname, meth))
+                   "" if ok else "%s.%s moves data without refreshing the idle tymer: a busy connection is timed out as idle%s" % (cname, meth, why))
     rf = ix.method(ix.cls(S, "Remoter"), "refresh")
     ok = any(isinstance(c, ast.Call) and method_call(c) == ("self.tymer", "restart") for c in walk_local(rf.node))
     run.ob("C12.R3", "%s:Remoter.refresh:restarts-tymer" % S, ok, run.site(rf), "" if ok else "Remoter.refresh does not restart the tymer")
